@@ -46,6 +46,7 @@ static inline bool h_isnan(u16 b) { return (b & 0x7FFF) > 0x7C00; }
 static inline bool h_isinf(u16 b) { return (b & 0x7FFF) == 0x7C00; }
 static inline bool h_iszero(u16 b) { return (b & 0x7FFF) == 0; }
 static inline bool h_isfinite(u16 b) { return (b & 0x7FFF) < 0x7C00; }
+static inline bool h_issnan(u16 b) { return h_isnan(b) && !(b & 0x200); }
 
 static double h2d_slow(u16 b)
 {
@@ -132,10 +133,11 @@ static const char* cls2(u16 b)   // coarser, for pairs
 // ------------------------------------------------------------------------------------------------
 // shared progress block, counters
 // ------------------------------------------------------------------------------------------------
-enum { C_EVAL, C_NONTRIV, C_OFF1, C_MPFR, C_FAST, C_XCHK_B, C_XCHK_C, C_XCHK_SPECIAL, C_VIOL, C_REFERR, C_CRASH, C_SANEVAL, C_N };
+enum { C_EVAL, C_NONTRIV, C_OFF1, C_MPFR, C_FAST, C_XCHK_B, C_XCHK_C, C_XCHK_SPECIAL, C_VIOL, C_REFERR, C_CRASH, C_SANEVAL, C_EHEVAL, C_EHSNAN, C_N };
 static const char* cnames[C_N] = {"evaluations", "distinct_nontrivial", "results_1ulp_off_allowed", "mpfr_verdicts", "fast_reference_verdicts",
                                   "refcheck_mpfr256", "refcheck_glibc_longdouble", "refcheck_special_values_glibc_float", "violating_cases",
-                                  "reference_disagreements", "crashes_or_hangs", "sanitizer_build_evaluations"};
+                                  "reference_disagreements", "crashes_or_hangs", "sanitizer_build_evaluations", "errhandling_build_evaluations",
+                                  "errhandling_build_snan_operand_gave_nan_accepted"};
 struct Shared
 {
     volatile unsigned long long seq;
@@ -309,6 +311,13 @@ static std::string judge(u16 r, u16 a, int max_ulp, bool special)
 }
 
 static bool g_verbose = false;
+// build flavour: the library's error handling compiled in (-DHALF_ERRHANDLING_FLAGS=1 -DHALF_ERRHANDLING_ERRNO=1) or not (default)
+#if HALF_ERRHANDLING
+static const bool g_eh = true;
+#else
+static const bool g_eh = false;
+#endif
+static inline std::string sigroot() { return g_eh ? "C09/errhandling:" : "C09/"; }
 static bool g_noref = false;   // sanitizer pass: only run the implementation (ASan / UBSan-bounds / crash / hang are the oracles)
 
 // ------------------------------------------------------------------------------------------------
@@ -376,7 +385,7 @@ static void do_unary(const Unary& u, u16 x)
     if (!k.empty())
     {
         cnt(C_VIOL);
-        vf::violation(std::string("C09/") + u.name + "/" + cls(x) + "/" + k,
+        vf::violation(sigroot() + u.name + "/" + cls(x) + "/" + k,
                       std::string(u.name) + "(" + hx(x) + ") returned " + hx(r) + ", correctly rounded binary16 result (MPFR) is " + hx(o.a) +
                           (u.max_ulp ? " and the documented tolerance is 1 ULP" : "; the function is documented as exact to rounding"),
                       {"--one", u.name, hexs(x)});
@@ -396,7 +405,7 @@ static const int n_fn = int(sizeof fnames / sizeof fnames[0]);
 static void fviol(const char* fn, u16 x, const std::string& kind, const std::string& got, const std::string& want)
 {
     cnt(C_VIOL);
-    vf::violation(std::string("C09/") + fn + "/" + cls(x) + "/" + kind,
+    vf::violation(sigroot() + fn + "/" + cls(x) + "/" + kind,
                   std::string(fn) + "(" + hx(x) + ") gave " + got + ", the float function (result rounded to binary16) gives " + want,
                   {"--one", fn, hexs(x)});
 }
@@ -495,38 +504,75 @@ static void do_floatlike(int fi, u16 x)
     if (nontriv && x == 0x4248 && (fi == 3 || fi == 8 || fi == 10 || fi == 11)) vf::sample(std::string(fn) + "(" + hx(x) + ") agrees with " + fn + "f", 1);
 }
 
-// ldexp / scalbn / scalbln: all halves x exponents [-60,60] u {INT_MIN, INT_MAX}
+// ldexp(half,int) / scalbn(half,int) / scalbln(half,long): all halves x an exponent alphabet in the entry point's OWN exponent type.
+//   every entry point : -60..60 (every exponent for which any half gives a finite non-zero result lies in -41..40)
+//   int boundaries    : INT_MIN, INT_MIN+1, -2^30, -2^16, -61, 61, 2^16, 2^30, INT_MAX-1, INT_MAX
+//   scalbln only      : +-(2^31-1), +-2^31, +-(2^31+1), +-(2^32-1), +-2^32, +-(2^32+1), +-(2^32+20), +-(2^32-20), +-2^33, +-2^40, +-2^48, +-2^62,
+//                       LONG_MAX-32 and LONG_MIN+16.  The last 31 values below LONG_MAX and the first 10 above LONG_MIN are NOT
+//                       in the alphabet: the unmodified code itself overflows a long there (`--exp` for subnormals, `exp += abs>>10`),
+//                       see the information note and NOTES.md.
+// Oracle: the correctly rounded value of x * 2^e: for |e| <= 60 std::ldexp in double (exact) rounded once to binary16 (and compared
+// with ldexpf); for e > 60 a finite non-zero x overflows to infinity, for e < -60 it underflows to zero, sign kept; zero, infinity
+// and NaN are returned unchanged.
 static const char* const sc_names[] = {"ldexp", "scalbn", "scalbln"};
-static std::vector<int> exp_alphabet()
+static std::vector<long> exp_alphabet(int which)
 {
-    std::vector<int> v;
-    for (int e = -60; e <= 60; ++e) v.push_back(e);
-    v.push_back(INT_MIN);
-    v.push_back(INT_MAX);
+    std::vector<long> v;
+    for (long e = -60; e <= 60; ++e) v.push_back(e);
+    long ib[] = {long(INT_MIN), long(INT_MIN) + 1, -(1L << 30), -(1L << 16), -61, 61, 1L << 16, 1L << 30, long(INT_MAX) - 1, long(INT_MAX)};
+    for (long e : ib) v.push_back(e);
+    if (which == 2)
+    {
+        long p31 = 1L << 31, p32 = 1L << 32;
+        long lb[] = {p31 - 1, p31, p31 + 1, p32 - 1, p32, p32 + 1, p32 + 20, p32 - 20, 1L << 33, 1L << 40, 1L << 48, 1L << 62};
+        for (long e : lb) { v.push_back(e); v.push_back(-e); }
+        v.push_back(LONG_MAX - 32);
+        v.push_back(LONG_MIN + 16);
+    }
     return v;
 }
-static void do_scale(int which, u16 x, int e)
+static u16 ref_scale(u16 x, long e)
+{
+    if (!h_isfinite(x) || h_iszero(x)) return h_isnan(x) ? u16(0x7E00) : x;
+    if (e > 60) return u16((x & 0x8000) | 0x7C00);     // 2^-24 * 2^61 > 65520
+    if (e < -60) return u16(x & 0x8000);               // 65504 * 2^-61 < 2^-25
+    return f2h<double>(std::ldexp(h2d(x), int(e)));    // exact product, one rounding
+}
+static void do_scale(int which, u16 x, long e)
 {
     half hx_ = mk(x);
+    bool fits_int = e >= long(INT_MIN) && e <= long(INT_MAX);
+    if (which != 2 && !fits_int) return;               // not expressible in this entry point's exponent type
     g_sh->phase = 1;
-    half r = which == 0 ? half_float::ldexp(hx_, e) : which == 1 ? half_float::scalbn(hx_, e) : half_float::scalbln(hx_, long(e));
+    half r = which == 0 ? half_float::ldexp(hx_, int(e)) : which == 1 ? half_float::scalbn(hx_, int(e)) : half_float::scalbln(hx_, e);
     g_sh->phase = 0;
-    double ed = std::ldexp(h2d(x), e);          // exact for |e| <= 60, and inf / 0 with the right sign for INT_MIN / INT_MAX
-    u16 eb = f2h<double>(ed);
-    u16 ef = f2h<float>(::ldexpf(float(h2d(x)), e));
-    if (ef != eb && !(h_isnan(ef) && h_isnan(eb))) ref_error(std::string("ldexp(") + hx(x) + "," + vf::str(e) + "): double gives " + hx(eb) + " float gives " + hx(ef));
+    u16 eb = ref_scale(x, e);
+    if (fits_int)
+    {
+        u16 ef = f2h<float>(::ldexpf(float(h2d(x)), int(e)));      // the float function, result rounded to binary16
+        u16 ed = f2h<double>(std::ldexp(h2d(x), int(e)));
+        if (!same_h(ef, eb) || !same_h(ed, eb)) ref_error(std::string("ldexp(") + hx(x) + "," + vf::str(e) + "): reference " + hx(eb) + ", glibc double " + hx(ed) + ", glibc float " + hx(ef));
+    }
+    else
+    {
+        u16 el = f2h<double>(::scalbln(h2d(x), e));                // glibc scalbln takes the long exponent
+        if (!same_h(el, eb)) ref_error(std::string("scalbln(") + hx(x) + "," + vf::str(e) + "): reference " + hx(eb) + ", glibc scalbln " + hx(el));
+    }
     cnt(C_EVAL);
     if (h_isfinite(eb) && !h_iszero(eb) && eb != x) cnt(C_NONTRIV);
     if (!same_h(bits(r), eb))
     {
         cnt(C_VIOL);
-        const char* ec = e == INT_MIN ? "INT_MIN" : e == INT_MAX ? "INT_MAX" : e < -25 ? "exp<-25" : e < 0 ? "exp<0" : e == 0 ? "exp=0" : e <= 25 ? "exp>0" : "exp>25";
-        vf::violation(std::string("C09/") + sc_names[which] + "/" + cls(x) + "," + ec + "/wrong-value",
-                      std::string(sc_names[which]) + "(" + hx(x) + ", " + vf::str(e) + ") returned " + hx(bits(r)) + ", ldexpf rounded to binary16 gives " + hx(eb),
+        const char* ec = e < long(INT_MIN) ? "exp<INT_MIN" : e > long(INT_MAX) ? "exp>INT_MAX" : e == INT_MIN ? "INT_MIN" : e == INT_MAX ? "INT_MAX" :
+                         e < -25 ? "exp<-25" : e < 0 ? "exp<0" : e == 0 ? "exp=0" : e <= 25 ? "exp>0" : "exp>25";
+        vf::violation(sigroot() + sc_names[which] + "/" + cls(x) + "," + ec + "/wrong-value",
+                      std::string(sc_names[which]) + "(" + hx(x) + ", " + vf::str(e) + ") returned " + hx(bits(r)) + ", correctly rounded x*2^e (what " +
+                          (fits_int ? "ldexpf rounded to binary16" : "C's scalbln") + " gives) is " + hx(eb),
                       {"--one", sc_names[which], hexs(x), vf::str(e)});
     }
-    if (g_verbose) std::printf("%s(%s,%d) = %s ref %s\n", sc_names[which], hx(x).c_str(), e, hx(bits(r)).c_str(), hx(eb).c_str());
-    if (x == 0x3555 && e == -17 && which == 0) vf::sample(std::string(sc_names[which]) + "(" + hx(x) + ", -17) = " + hx(bits(r)) + " ; ldexpf " + hx(eb), 3);
+    if (g_verbose) std::printf("%s(%s,%ld) = %s ref %s\n", sc_names[which], hx(x).c_str(), e, hx(bits(r)).c_str(), hx(eb).c_str());
+    if (x == 0x3555 && ((e == -17 && which == 0) || (e == (1L << 32) && which == 2)))
+        vf::sample(std::string(sc_names[which]) + "(" + hx(x) + ", " + vf::str(e) + ") = " + hx(bits(r)) + " ; correctly rounded x*2^e " + hx(eb), 3);
 }
 
 // ------------------------------------------------------------------------------------------------
@@ -625,8 +671,9 @@ static bool fast_ref(int k, u16 x, u16 y, u16& out)
 
 static unsigned char g_level_of[65536];   // smallest sweep level (0 alphabet 1, 1 alphabet 2, 2 full) that contains the value
 static int g_level = 0;                   // level of the running pair sweep
+static bool g_count_nontriv = true;       // false for the special-operand sweep (its non-NaN pairs lie inside alphabet 1)
 
-static std::string bsig(int k, u16 x, u16 y, const std::string& kind) { return std::string("C09/") + bnames[k] + "/" + cls2(x) + "," + cls2(y) + "/" + kind; }
+static std::string bsig(int k, u16 x, u16 y, const std::string& kind) { return sigroot() + bnames[k] + "/" + cls2(x) + "," + cls2(y) + "/" + kind; }
 
 // quotient bits of remquo: sign of x/y, magnitude congruent modulo 8 to the integral quotient (C99 7.12.10.3, n >= 3)
 static void check_quo(u16 x, u16 y, int quo)
@@ -716,9 +763,12 @@ static void do_binary(int k, u16 x, u16 y, int mode)
         o = ref2(b_mp[k], x, y);
         if (!same_h(fr, o.a) && !zero_sign_free) ref_error(std::string(bnames[k]) + "(" + hx(x) + ", " + hx(y) + "): MPFR=" + hx(o.a) + " fast reference=" + hx(fr));
     }
+    // With error handling compiled in, a SIGNALLING NaN operand raises FE_INVALID and yields a quiet NaN even where Annex F lets a
+    // quiet NaN be ignored (documented purpose of detail::select; Annex F does not define signalling NaNs): NaN is accepted there.
+    if (g_eh && !kind.empty() && h_isnan(r) && (h_issnan(x) || h_issnan(y))) { kind.clear(); cnt(C_EHSNAN); }
     g_sh->phase = 0;
     cnt(C_EVAL);
-    bool nontriv = h_isfinite(a) && !h_iszero(a) && a != x && a != y;
+    bool nontriv = g_count_nontriv && h_isfinite(a) && !h_iszero(a) && a != x && a != y;
     // a pair already covered by a smaller sweep (both operands in its alphabet) is evaluated again but not counted again as distinct
     bool first_visit = std::max(g_level_of[x], g_level_of[y]) == g_level;
     if (nontriv && first_visit) cnt(C_NONTRIV);
@@ -888,7 +938,7 @@ struct UnaryTask : Task
     {
         u16 x = u16(lo + i);
         rp = {"--one", unaries[f].name, hexs(x)};
-        sb = std::string("C09/") + unaries[f].name + "/" + cls(x);
+        sb = sigroot() + unaries[f].name + "/" + cls(x);
         return std::string(unaries[f].name) + "(" + hx(x) + ")";
     }
 };
@@ -901,21 +951,21 @@ struct FloatlikeTask : Task
     {
         u16 x = u16(i);
         rp = {"--one", fnames[f], hexs(x)};
-        sb = std::string("C09/") + fnames[f] + "/" + cls(x);
+        sb = sigroot() + fnames[f] + "/" + cls(x);
         return std::string(fnames[f]) + "(" + hx(x) + ")";
     }
 };
 struct ScaleTask : Task
 {
-    int which; std::vector<int> ea; unsigned lo, hi;
+    int which; std::vector<long> ea; unsigned lo, hi;
     unsigned long long size() const override { return (unsigned long long)(hi - lo) * ea.size(); }
     void run(unsigned long long i) override { do_scale(which, u16(lo + i / ea.size()), ea[i % ea.size()]); }
     std::string describe(unsigned long long i, std::vector<std::string>& rp, std::string& sb) override
     {
         u16 x = u16(lo + i / ea.size());
-        int e = ea[i % ea.size()];
+        long e = ea[i % ea.size()];
         rp = {"--one", sc_names[which], hexs(x), vf::str(e)};
-        sb = std::string("C09/") + sc_names[which] + "/" + cls(x);
+        sb = sigroot() + sc_names[which] + "/" + cls(x);
         return std::string(sc_names[which]) + "(" + hx(x) + ", " + vf::str(e) + ")";
     }
 };
@@ -932,7 +982,7 @@ struct PairTask : Task
     std::string describe(unsigned long long i, std::vector<std::string>& rp, std::string& sb) override
     {
         rp = {"--one", bnames[k], hexs(X(i)), hexs(Y(i))};
-        sb = std::string("C09/") + bnames[k] + "/" + cls2(X(i)) + "," + cls2(Y(i));
+        sb = sigroot() + bnames[k] + "/" + cls2(X(i)) + "," + cls2(Y(i));
         return std::string(bnames[k]) + "(" + hx(X(i)) + ", " + hx(Y(i)) + ")";
     }
 };
@@ -1048,10 +1098,11 @@ static void do_hypot3(u16 x, u16 y, u16 z, int mode)
         a = ai;
         mismatch = !same_h(r, a);
     }
+    if (g_eh && mismatch && h_isnan(r) && (h_issnan(x) || h_issnan(y) || h_issnan(z))) { mismatch = false; cnt(C_EHSNAN); }
     g_sh->phase = 0;
     cnt(C_EVAL);
     u16 ax = x & 0x7FFF, ay = y & 0x7FFF, az = z & 0x7FFF;
-    bool nontriv = h_isfinite(a) && !h_iszero(a) && a != ax && a != ay && a != az;
+    bool nontriv = g_count_nontriv && h_isfinite(a) && !h_iszero(a) && a != ax && a != ay && a != az;
     // conservative distinct count: a triple that also belongs to a smaller family is evaluated again but not counted again
     bool all0 = g_in_a0[x] && g_in_a0[y] && g_in_a0[z], all1 = g_in_a1[x] && g_in_a1[y] && g_in_a1[z];
     bool first = g_tfamily == T_CUBE0 ? true : g_tfamily == T_CUBE1 ? !all0 : g_tfamily == T_DERIVED ? !all1 : !all1;
@@ -1062,7 +1113,7 @@ static void do_hypot3(u16 x, u16 y, u16 z, int mode)
                            (h_isinf(r) && !h_isinf(a)) ? "infinity-for-finite" : (r & 0x8000) ? "negative-result" :
                            std::abs(hkey(r) - hkey(a)) == 1 ? "off-by-1ulp" : "off-by-more-than-1ulp";
         cnt(C_VIOL);
-        vf::violation(std::string("C09/hypot3/") + cls3(x) + "," + cls3(y) + "," + cls3(z) + "/" + kind,
+        vf::violation((sigroot() + "hypot3/") + cls3(x) + "," + cls3(y) + "," + cls3(z) + "/" + kind,
                       "hypot(" + hx(x) + ", " + hx(y) + ", " + hx(z) + ") returned " + hx(r) + ", correctly rounded sqrt(x^2+y^2+z^2) is " + hx(a) +
                           " (exact integer arithmetic, confirmed by MPFR); the function is documented as exact to rounding",
                       {"--one", "hypot3", hexs(x), hexs(y), hexs(z)});
@@ -1125,7 +1176,7 @@ struct TripleTask : Task
         u16 x = 0, y = 0, z = 0;
         get(i, x, y, z);
         rp = {"--one", "hypot3", hexs(x), hexs(y), hexs(z)};
-        sb = std::string("C09/hypot3/") + cls3(x) + "," + cls3(y) + "," + cls3(z);
+        sb = (sigroot() + "hypot3/") + cls3(x) + "," + cls3(y) + "," + cls3(z);
         return "hypot(" + hx(x) + ", " + hx(y) + ", " + hx(z) + ")";
     }
 };
@@ -1160,6 +1211,25 @@ struct DerivedTask : TripleTask
         u16 t = zl[(i / 3) % NZ];
         place(int(i % 3), a, b, t, x, y, z);
         return t != Z_SKIP;
+    }
+};
+// special operands: every NaN bit pattern in each of the three positions x all ordered pairs of 16 special/representative values
+struct NanTripleTask : TripleTask
+{
+    std::vector<u16> sp;
+    NanTripleTask()
+    {
+        u16 v[] = {0x0000, 0x8000, 0x7C00, 0xFC00, 0x3C00, 0xBC00, 0x7BFF, 0xFBFF, 0x0001, 0x8001, 0x7E00, 0x7C01, 0xFE00, 0x4200, 0x3800, 0x0400};
+        sp.assign(v, v + 16);
+    }
+    unsigned long long size() const override { return 2046ULL * 256 * 3; }
+    bool get(unsigned long long i, u16& x, u16& y, u16& z) override
+    {
+        unsigned long long t = i / 3;
+        unsigned n = unsigned(t / 256);                  // 0..2045 -> NaN patterns 0x7C01..0x7FFF, 0xFC01..0xFFFF
+        u16 nan = u16(n < 1023 ? 0x7C01 + n : 0xFC01 + (n - 1023));
+        place(int(i % 3), sp[(t / 16) % 16], sp[t % 16], nan, x, y, z);
+        return true;
     }
 };
 // all (a, b) for which sqrt(a^2+b^2) is EXACTLY half way between two neighbouring halves, found with integer arithmetic
@@ -1267,7 +1337,7 @@ struct OneTask : Task
         u16 x = u16(std::strtoul(a[1].c_str(), nullptr, 16));
         for (int i = 0; i < n_unary; ++i) if (fn == unaries[i].name) { do_unary(unaries[i], x); return; }
         for (int i = 0; i < n_fn; ++i) if (fn == fnames[i]) { do_floatlike(i, x); return; }
-        for (int i = 0; i < 3; ++i) if (fn == sc_names[i]) { do_scale(i, x, int(std::strtol(a.at(2).c_str(), nullptr, 10))); return; }
+        for (int i = 0; i < 3; ++i) if (fn == sc_names[i]) { do_scale(i, x, std::strtol(a.at(2).c_str(), nullptr, 10)); return; }
         if (fn == "hypot3") { do_hypot3(x, u16(std::strtoul(a.at(2).c_str(), nullptr, 16)), u16(std::strtoul(a.at(3).c_str(), nullptr, 16)), 0); return; }
         for (int i = 0; i < B_N; ++i) if (fn == bnames[i]) { do_binary(i, x, u16(std::strtoul(a.at(2).c_str(), nullptr, 16)), 0); return; }
         std::printf("unknown function %s\n", fn.c_str());
@@ -1278,7 +1348,7 @@ struct OneTask : Task
         rp = {"--one"};
         for (auto& s : a) rp.push_back(s);
         u16 x = u16(std::strtoul(a[1].c_str(), nullptr, 16));
-        sb = "C09/" + a[0] + "/";
+        sb = sigroot() + a[0] + "/";
         bool binary = false;
         for (int i = 0; i < B_N; ++i) if (a[0] == bnames[i]) binary = true;
         if (a[0] == "hypot3") sb += std::string(cls3(x)) + "," + cls3(u16(std::strtoul(a.at(2).c_str(), nullptr, 16))) + "," + cls3(u16(std::strtoul(a.at(3).c_str(), nullptr, 16)));
@@ -1342,7 +1412,7 @@ int main(int argc, char** argv)
         ScaleTask t;
         t.which = find(sc_names, 3, a.at(1));
         if (t.which < 0) return 3;
-        t.ea = exp_alphabet();
+        t.ea = exp_alphabet(t.which);
         t.lo = unsigned(std::strtoul(a.at(2).c_str(), nullptr, 0));
         t.hi = unsigned(std::strtoul(a.at(3).c_str(), nullptr, 0));
         sweep(t);
@@ -1361,6 +1431,17 @@ int main(int argc, char** argv)
         for (u16 v : alphabet(1)) g_level_of[v] = 0;
         g_level = a[2] == "full" ? 2 : a[2] == "alpha1" ? 0 : 1;
         if (a[2] == "full") { for (unsigned x = 0; x < 65536; ++x) all.push_back(u16(x)); }
+        else if (a[2] == "spec")
+        {
+            // special operands: alphabet 0 (every exponent, +-0, subnormals, +-inf) and EVERY NaN bit pattern, quiet and signalling
+            all = alphabet0();
+            for (unsigned n = 0x7C01; n <= 0x7FFF; ++n) { all.push_back(u16(n)); all.push_back(u16(n | 0x8000)); }
+            std::sort(all.begin(), all.end());
+            all.erase(std::unique(all.begin(), all.end()), all.end());
+            t.ys = all;
+            g_count_nontriv = false;
+            g_level = 2;
+        }
         else { all = alphabet(a[2] == "alpha1" ? 1 : 2); t.ys = all; }
         // contiguous blocks of x: shard s gets [s*N/ns, (s+1)*N/ns)
         size_t lo = all.size() * shard / ns, hi = all.size() * (shard + 1) / ns;
@@ -1394,6 +1475,13 @@ int main(int argc, char** argv)
             t.xs.assign(t.vals.begin() + lo, t.vals.begin() + hi);
             sweep(t);
         }
+        else if (what == "nans")
+        {
+            NanTripleTask t;
+            g_tfamily = T_DERIVED;
+            g_count_nontriv = false;
+            sweep(t);
+        }
         else if (what == "ties")
         {
             TiesTask t;
@@ -1407,7 +1495,7 @@ int main(int argc, char** argv)
             if (shard == 0) vf::note("hypot3 ties: " + vf::str(all.size()) + " ordered positive pairs (x,y) with sqrt(x^2+y^2) exactly half way between two halves (found with integer arithmetic)");
         }
         else return 3;
-        label = "hypot3/" + what + (what == "cube0" || what == "cube1" ? std::string() : "/" + a.at(2));
+        label = "hypot3/" + what + (what == "cube0" || what == "cube1" || what == "nans" ? std::string() : "/" + a.at(2));
     }
     else if (a[0] == "--info")
     {
@@ -1426,6 +1514,14 @@ int main(int argc, char** argv)
         g_sh->cnt[C_SANEVAL] += g_sh->cnt[C_EVAL];
         g_sh->cnt[C_EVAL] = g_sh->cnt[C_NONTRIV] = g_sh->cnt[C_OFF1] = g_sh->cnt[C_MPFR] = g_sh->cnt[C_FAST] = 0;
         g_sh->cnt[C_XCHK_B] = g_sh->cnt[C_XCHK_C] = g_sh->cnt[C_XCHK_SPECIAL] = 0;
+    }
+    if (g_eh && !g_noref)
+    {
+        // second build configuration: the cases are executions of different library code and are counted as evaluations,
+        // but (conservatively) not again as distinct non-trivial cases
+        g_sh->cnt[C_EHEVAL] = g_sh->cnt[C_EVAL];
+        g_sh->cnt[C_NONTRIV] = 0;
+        if (!label.empty()) label = "errhandling:" + label;
     }
     for (int i = 0; i < C_N; ++i)
         if (g_sh->cnt[i]) vf::stat(cnames[i], g_sh->cnt[i]);
